@@ -244,10 +244,11 @@ def _probe_function(value):
     return probe
 
 
-def base_context(values_name, values):
+def base_context(values_name, values, labels=True):
     """A child of the standard library holding the values ($a ...) and one tick
     probe per value (pa(key) logs key and returns $a); shared, never written to
-    after construction."""
+    after construction.  labels=False: the values are not given names in what a
+    payload reports (needed when they are interned python objects such as 1)."""
     ctx = _base.get(values_name)
     if ctx is None:
         ctx = OrderedContext(yq.root())
@@ -255,7 +256,8 @@ def base_context(values_name, values):
         for k, v in values.items():
             ctx[k] = v
             ctx.register_function(specs.get_function_definition(_probe_function(v), name='p' + k))
-        register_values(values)
+        if labels:
+            register_values(values)
         _base[values_name] = ctx
     return ctx
 
